@@ -19,6 +19,7 @@ import (
 	"fmt"
 	"log/slog"
 	"net/http"
+	"slices"
 
 	"github.com/bartventer/httpcache/store/driver"
 )
@@ -115,6 +116,9 @@ func (r *responseCache) GetRefs(urlKey string) (ResponseRefs, error) {
 			fmt.Sprintf("failed to unmarshal cached refs for key %q", urlKey),
 		)
 	}
+	// A null element can only come from a corrupted or foreign value; it refers
+	// to nothing.
+	refs = slices.DeleteFunc(refs, func(ref *ResponseRef) bool { return ref == nil })
 	return refs, nil
 }
 
